@@ -111,11 +111,10 @@ Proof. unfold coverlay. cbn. rewrite app_nil_r. reflexivity. Qed.
 
 Theorem T02_create_file s n d : Wf hr c s -> hbok s -> good n -> clen d < 10 ^ 40 ->
   match lookup (abs s) n with Some v => is_dir v = true | None => True end ->
-  (d = [] \/ (c_uid c = 0 /\ c_gid c = 0 /\ c_uname c = [] /\ c_gname c = [])) ->
   exists s' cid, step c s (CCreateFile n d) = (s', snd (spec_create_file c (abs s) n (clen d) (clk s) cid)) /\
     Wf hr c s' /\ hbok s' /\ ns_eq (abs s') (fst (spec_create_file c (abs s) n (clen d) (clk s) cid)).
 Proof.
-  intros HW Hhb G Hlen Hnew Hid. pose proof (wf_inv hr c s HW) as HI. pose proof (iv_li hr c s HI) as HL.
+  intros HW Hhb G Hlen Hnew. pose proof (wf_inv hr c s HW) as HI. pose proof (iv_li hr c s HI) as HL.
   assert (Hrows : Forall rowok (rows (db s))) by apply HL.
   assert (Hnd : NoDup (map r_name (rows (db s)))) by apply HL.
   cbn [step]. unfold fs_create. rewrite Hro.
@@ -164,7 +163,7 @@ Proof.
   - (* nothing to write: the handle has no buffer, Close writes nothing *)
     cbn [hd_buf handle_close]. exists s1, (rec, blk). split; [reflexivity|]. split; [exact HW1|]. split; [exact Hhb1|].
     cbn [fst snd clen fold_right]. exact Ea1.
-  - destruct Hid as [Hid|(I1 & I2 & I3 & I4)]; [discriminate|]. remember (p0 :: dr) as d eqn:Ed0. clear Ed0 p0 dr.
+  - remember (p0 :: dr) as d eqn:Ed0. clear Ed0 p0 dr.
     unfold handle_write_all. cbn [hd_info hd_flags hd_buf hd_path fl_write fl_append fl_trunc negb].
     change (h_tf (hdr_of_row nr)) with TypeReg. change (TypeReg =? TypeDir) with false. cbn iota.
     change (h_name (hdr_of_row nr)) with n.
@@ -190,14 +189,16 @@ Proof.
       rewrite look_replace; [|exact Hrows1|exact Hnd1|reflexivity|eapply find_rows_has; exact Fn1].
       rewrite lookup_ns_set. rewrite <- (lookup_abs hr c s1 m HI1), (Ea1 m), lookup_ns_set.
       destruct (eqb_str m n); [|reflexivity]. change (live fr) with true. cbn iota. f_equal.
-      unfold fr, node_of, file_node, bb, hd, nr. cbn -[coverlay clen perm_bits N.pow]. rewrite coverlay_nil, I1, I2, I3, I4, !perm_bits_idem. reflexivity.
+      unfold fr, node_of, file_node, bb, hd, nr. cbn -[coverlay clen perm_bits N.pow]. rewrite coverlay_nil, !perm_bits_idem. reflexivity.
 Qed.
 (* ---------- what the implementation does on an EXISTING regular file (the corner T02Counter.v (2)): the content,
-   size and content position are replaced as in the reference, but the modification time is kept, owner and group
-   become 0 / "" and access and change time 0; nothing at all happens when the file is empty and nothing is written *)
+   size and content position are replaced and mode, owner, group, access and change time are kept, all as in the
+   reference, but the modification time is kept too (the reference stamps it); nothing at all happens when the file
+   is empty and nothing is written *)
 Definition flushed_node (size : N) (cid : N * N) (v : node) : node :=
-  {| n_tf := TypeReg; n_size := size; n_mode := n_mode v; n_uid := 0; n_gid := 0; n_uname := []; n_gname := [];
-     n_mtime := n_mtime v; n_atime := 0%Z; n_ctime := 0%Z; n_cid := cid |}.
+  {| n_tf := TypeReg; n_size := size; n_mode := n_mode v; n_uid := n_uid v; n_gid := n_gid v;
+     n_uname := n_uname v; n_gname := n_gname v;
+     n_mtime := n_mtime v; n_atime := n_atime v; n_ctime := n_ctime v; n_cid := cid |}.
 
 Theorem T02_create_existing s n d v : Wf hr c s -> hbok s -> good n -> clen d < 10 ^ 40 ->
   lookup (abs s) n = Some v -> is_dir v = false -> spec_parent (abs s) n = OOk ->
